@@ -450,4 +450,41 @@ theorem handleIdle_fuel_irrelevant {σ} (cfg : Cfg) (app : App σ) (env : IdleEn
   unfold handleIdle handleIdleWith
   rw [idleFuel_sufficient cfg app env { c with touched := false } c n h]
 
+/-- Thread-per-connection, daemon shutdown: the connection's own thread leaves its loop and runs
+    `MHD_connection_close_ (con, MHD_REQUEST_TERMINATED_DAEMON_SHUTDOWN); MHD_connection_handle_idle (con)`
+    (end of thread_main_handle_connection).  For a connection that is not suspended this is, up to the
+    scratch flag `touched`, exactly the event `shutdownClose` (close_connection of the other modes): same
+    callback log, same connection record. -/
+theorem tpc_exit_is_shutdownClose {σ} (cfg : Cfg) (app : App σ) (env : IdleEnv) (c : Conn σ)
+    (hf : c.fault = false) (hs : c.started = true) (hc : c.cleaned = false) (hi : c.inCleanup = false)
+    (hsu : c.suspended = false) :
+    (handleIdle cfg app env (closeConn c terminatedDaemonShutdown).1).1 =
+      { (step cfg app c .shutdownClose).1 with touched := false } ∧
+    (closeConn c terminatedDaemonShutdown).2 ++ (handleIdle cfg app env (closeConn c terminatedDaemonShutdown).1).2 =
+      (step cfg app c .shutdownClose).2 := by
+  have hstep : step cfg app c .shutdownClose =
+      ({ (closeConn c terminatedDaemonShutdown).1 with inCleanup := true }, (closeConn c terminatedDaemonShutdown).2) := by
+    unfold step
+    simp [hf, hs, hc, hi, hsu]
+  rw [hstep]
+  have hcl : (closeConn c terminatedDaemonShutdown).1.state = .closed := closeConn_state _ _
+  have key : (closeConn c terminatedDaemonShutdown).1.response = none ∧
+      (closeConn c terminatedDaemonShutdown).1.suspended = c.suspended ∧
+      (closeConn c terminatedDaemonShutdown).1.inCleanup = c.inCleanup := by
+    unfold closeConn notify dropResp
+    by_cases ha : c.clientAware = true <;> cases hr : c.response <;> simp [ha, hr]
+  have hresp := key.1
+  have hsus := key.2.1.trans hsu
+  have hic := key.2.2.trans hi
+  clear key hstep
+  generalize closeConn c terminatedDaemonShutdown = r at hcl hresp hsus hic ⊢
+  obtain ⟨c1, l1⟩ := r
+  simp only at hcl hresp hsus hic ⊢
+  have hfuel := idleLoop_fuel cfg app env (idleFuel c1) 26 { c1 with touched := false }
+    (by have := idleMeasure_le { c1 with touched := false }; unfold idleFuel; omega)
+    (by have := idleMeasure_le { c1 with touched := false }; omega)
+  unfold handleIdle handleIdleWith
+  rw [hfuel]
+  simp [idleLoop, idleCase, hcl, hsus, cleanupConnection, hic, dropResp, hresp]
+
 end Mhd.ConnSM
